@@ -409,6 +409,16 @@ func execBz(o *Out, id, line string) {
 				} else if !bytes.HasPrefix(out, cout) {
 					o.Violate("C12", fmt.Sprintf("bzip2 input cut at %d delivers bytes that are not a prefix of the full output", k), "cut-prefix", line)
 				}
+				// the same cut through the other source shapes: the verdict must be the reference's
+				// (success only at the end of one of the concatenated streams), whatever the source offers
+				for _, src := range []string{"byte", "readonly", "bufio16"} {
+					zr, _ := dbzip2.NewReader(mkSource(src, in[:k], -1, 0, nil, []int{3, 1}), nil)
+					sout, serr := io.ReadAll(zr)
+					if (serr == nil) != (cerr == nil) || bzClass(serr) != c2 {
+						o.Violate("C03", fmt.Sprintf("bzip2 input of %d bytes cut at %d: through a %s source the Reader ends with %v (%d bytes), through bytes.Reader with %v (%d bytes)", len(in), k, src, serr, len(sout), cerr, len(cout)), "cut-verdict-by-source", line)
+						break
+					}
+				}
 			}
 		}
 		if cls != "eof" && cls != "corrupt" && cls != "ueof" && cls != "deprecated" {
